@@ -315,6 +315,49 @@ func (cfg *TaintCfg) analyze(fn *ssa.Function, sources []ssa.Value, chain []stri
 			for o := range cfg.condSanitises(fn, c, tv, chain, depth) {
 				out[o] = true
 			}
+			// a value assembled on the way in and then compared (`owner == p` where owner is a phi): per incoming edge, the
+			// facts of that edge plus what the comparison says about that edge's own value; safe is what all edges agree on
+			if e, ok := c.AsEq(); ok && curIn != nil {
+				var ph *ssa.Phi
+				var other ssa.Value
+				if p, ok := e.X.(*ssa.Phi); ok {
+					ph, other = p, e.Y
+				} else if p, ok := e.Y.(*ssa.Phi); ok {
+					ph, other = p, e.X
+				}
+				if ph != nil && !genBusy[ph] {
+					genBusy[ph] = true
+					var acc map[ssa.Value]bool
+					for i, ev := range ph.Edges {
+						pb := ph.Block().Preds[i]
+						m := map[ssa.Value]bool{}
+						for o := range curIn[pb] {
+							m[o] = true
+						}
+						for o := range genFn(pb, ph.Block()) {
+							m[o] = true
+						}
+						op := token.EQL
+						syn := &ssa.BinOp{Op: op, X: ev, Y: other}
+						for o := range cfg.condSanitises(fn, Cond{V: syn, Pol: e.Equal}, tv, chain, depth) {
+							m[o] = true
+						}
+						if acc == nil {
+							acc = m
+						} else {
+							for o := range acc {
+								if !m[o] {
+									delete(acc, o)
+								}
+							}
+						}
+					}
+					delete(genBusy, ph)
+					for o := range acc {
+						out[o] = true
+					}
+				}
+			}
 			// a flag assembled on the way in (phi of booleans): what is safe is what is safe on every
 			// incoming edge that can give the flag this value (facts of the predecessor + the edge's own)
 			if ph, ok := c.V.(*ssa.Phi); ok && curIn != nil && !genBusy[ph] {
